@@ -853,8 +853,13 @@ class Engine:
                     it.assign_target(node.target, self.make_sym(ctx, stream.shape, fresh_name("item")), fr)
                 elif is_for:
                     it.assign_target(node.target, seq.get(iz), fr)
+                injected = [k for k in ctx.ghost if k not in fr.locals]
+                for k in injected:
+                    fr.locals[k] = ctx.ghost[k]     # the contract's ghost inputs are readable in ghost code
                 for line in spec.get("ghost_pre", []):
                     it.exec_block(ast.parse(line).body, Frame(self.contract_module(self.current), fr.locals, closure=None))
+                for k in injected:
+                    fr.locals.pop(k, None)
                 it.exec_block(node.body, fr)
             except _Continue:
                 pass
